@@ -87,6 +87,19 @@ def run(ctx):
     scrub_none_leaves = any(n['k'] == 'If' and n['cond']['k'] == 'LetExpr' and hirq.local_of(n['cond']['init']) == sb and leaves_loop(n.get('els')) for n, c in walk(C.arms['scrub']['body']))
     ctx.add('L2.closed-scrub-channel-cannot-starve-exit', 'select fairness', loc(main_loop), bool(rng) or scrub_none_leaves,
             'the select! is biased and its first-polled arm (ID scrub) is permanently ready with None once all handles are dropped: the arms that end the loop are never reached and the driver spins forever')
+    # an arm that ends the loop must always be polled: a `, if <cond>` precondition on it switches the exit off
+    pre = hirq.select_preconditions(main_loop)
+    n_arms = len(hirq.select_arms(main_loop))
+    ctx.add('L2.every-branch-has-its-precondition-slot', 'select!', loc(main_loop), len(pre) == n_arms and n_arms >= 3,
+            'the select! of the driver loop has %d arms but %d precondition slots were found: the macro expansion is not understood' % (n_arms, len(pre)))
+    for role in ('request', 'response'):
+        a = C.arms[role]
+        idx = a['index']
+        cond = pre[idx] if idx < len(pre) else None
+        ok = cond is not None and cond['k'] == 'Lit' and cond.get('v') is True
+        ctx.add('L2.exit-arm-always-polled', role, loc(a['body']), ok,
+                'the %s arm of the driver loop has a precondition (`, if ...`): while it is false the driver no longer notices %s, so pending operations wait forever' % (
+                    role, 'that the last handle was dropped' if role == 'request' else 'end of stream, a reset or an undecodable frame'))
     resp = C.arms['response']
     rb = resp['bindings'][0][0]
     for m in [n for n, c in walk(resp['body']) if n['k'] == 'Match' and hirq.local_of(n['scrut']) == rb]:
